@@ -102,14 +102,24 @@ def expo_lit(r):
     return 'EOther'
 
 
+# tri- and tetra-substituted alkenes written with explicit stereo (both isomers), for the schemes with cis corrections
+STEREO = ['C/C=C(/C)CC', 'C/C=C(\\C)CC', 'C/C(CC)=C(\\C)CCC', 'C/C(CC)=C(/C)CCC', 'CC/C=C(/C)C(C)C', 'C/C=C/C', 'C/C=C\\C',
+          'C/C=C(/CC)CCC', 'C/C=C(\\CC)CCC', 'CC/C(C)=C(/C)CC', 'C/C=C/C=C\\C', 'F/C=C(/C)CC']
+
+
 def decompose_jobs(ctx, n_per_lib, graph=True, as_mol=False):
     jobs = []
-    for lib in gen.SHIPPED:
+    libs = list(gen.SHIPPED)
+    for li, lib in enumerate(libs):
         from props import c03, c04
-        pool = list(dict.fromkeys(c03.EXTRA.get(lib, [])[:10] + c04.STRESS.get(lib, [])[:10] + molgen.pool_for_lib(ctx.rng, lib, n_per_lib, with_bad=0.12)))
+        extra = STEREO if lib in ('BensonGA', 'PPY') else []
+        pool = list(dict.fromkeys(c03.EXTRA.get(lib, [])[:10] + c04.STRESS.get(lib, [])[:10] + extra
+                                  + molgen.pool_for_lib(ctx.rng, lib, n_per_lib, with_bad=0.12)))
         step = 8
-        for s in range(0, len(pool), step):
-            jobs.append({'lib': lib, 'smiles': pool[s:s + step], 'graph': graph, 'as_mol': as_mol, 'timeout': 300})
+        for k, s in enumerate(range(0, len(pool), step)):
+            # every other job first asks ANOTHER scheme object for the same strings in the same process
+            jobs.append({'lib': lib, 'smiles': pool[s:s + step], 'graph': graph, 'as_mol': as_mol, 'timeout': 300,
+                         'prime': libs[(li + 1 + k) % len(libs)] if k % 2 == 0 else None})
     return jobs
 
 
